@@ -29,6 +29,9 @@ impl Clone for Tg {
     fn clone(&self) -> Self { Tg { id: self.id, gen: self.gen.wrapping_add(1) } }
     fn clone_from(&mut self, s: &Self) { self.id = s.id; self.gen = s.gen.wrapping_add(16); }
 }
+// decoys: inherent methods named like the Clone methods (fully qualified calls in generated code never reach them)
+impl Tg { pub fn clone(&self) -> Tg { Tg { id: 0xEE, gen: 99 } } pub fn clone_from<R>(&mut self, _s: R) { self.gen = 98; } }
+impl<'a> Tr<'a> { pub fn clone(&self) -> u8 { 0xEE } pub fn clone_from<R>(&mut self, _s: R) { self.id = 0xEE; } }
 pub type Snap = (u8, [u8; 4], [u8; 4]);
 """
 
@@ -335,6 +338,16 @@ pub fn peek<T: Poke>(t: &T) -> u8 { t.peek_() }
 
 
 # ------------------------------------------------------------------------------------------------ C09
+def _c09_decoys():
+    ms = ["pub fn clone(&self) -> u8 { 0xEE }"]
+    for op in BINOPS:
+        ms.append("pub fn %s<R_>(self, _r: R_) -> u8 { 0xEE }" % FN[op])
+        ms.append("pub fn %s_assign<R_>(&mut self, _r: R_) { self.v = 0xEE; }" % FN[op])
+    body = "\n    ".join(ms)
+    return ("// decoys: inherent methods named like Clone::clone and the operator methods; the derived forms must reach the trait impls\n"
+            "impl A {\n    %s\n}\nimpl B {\n    %s\n}\nimpl<T> G<T> {\n    %s\n}\n" % (body, body, body))
+
+
 C09_TYPES = r'''
 /// operand types with an observable clone counter (c) — the user impl records the counters it sees
 #[derive(Debug, PartialEq, Eq)]
@@ -353,7 +366,7 @@ pub struct G<T> { pub v: u8, pub c: u8, pub t: T }
 impl<T: Copy> Clone for G<T> { fn clone(&self) -> G<T> { G { v: self.v, c: self.c.wrapping_add(1), t: self.t } } }
 impl<T: Copy> G<T> { pub fn dup(&self) -> G<T> { G { v: self.v, c: self.c, t: self.t } } }
 impl Mk for G<u8> { fn mk<S: Src>(s: &mut S) -> Self { G { v: s.u8(), c: s.u8() & 3, t: 7 } } }
-'''
+''' + _c09_decoys()
 C09_SUPPORT = r'''
 /// the user's (non-commutative, op-specific) computation
 pub fn uf(k: u8, l: u8, r: u8) -> u8 { l.wrapping_mul(3).wrapping_add(r ^ k.wrapping_mul(37)).wrapping_add(k) }
@@ -440,6 +453,9 @@ impl From<&str> for S8 { fn from(s: &str) -> S8 { S8(s.len() as u8 + 100) } }
 #[derive(Debug, PartialEq, Eq, Clone, Copy)]
 pub struct Cc(pub u8);
 impl From<Cc> for S8 { fn from(c: Cc) -> S8 { S8(c.0 + 50) } }
+// decoys: inherent items named like the trait items the generated code uses
+impl S8 { pub fn default() -> S8 { S8(222) } pub fn into(self) -> S8 { S8(233) } pub fn from<R>(_r: R) -> S8 { S8(244) } }
+impl Cc { pub fn into(self) -> S8 { S8(234) } }
 pub const C_U8: u8 = 41;
 pub const C_CC: Cc = Cc(3);
 pub struct K;
@@ -454,11 +470,11 @@ pub fn mks() -> S8 { S8(1) }
 C11_FIELD_CASES = [
     ("u8", None, "<u8 as Default>::default()"), ("bool", None, "<bool as Default>::default()"), ("Option<u8>", None, "None"), ("S8", None, "<S8 as Default>::default()"),
     ("u8", "5", "5u8"), ("i16", "-5", "-5i16"), ("bool", "true", "true"), ("char", "'x'", "'x'"),
-    ("S8", '"abc"', 'S8::from("abc")'), ("u8", "C_U8", "C_U8"), ("S8", "C_CC", "S8::from(C_CC)"), ("u8", "K::V", "K::V"), ("S8", "K::W", "S8::from(K::W)"),
+    ("S8", '"abc"', '<S8 as From<_>>::from("abc")'), ("u8", "C_U8", "C_U8"), ("S8", "C_CC", "<S8 as From<_>>::from(C_CC)"), ("u8", "K::V", "K::V"), ("S8", "K::W", "<S8 as From<_>>::from(K::W)"),
     ("u8", "mk8()", "mk8()"), ("S8", "mks()", "mks()"), ("u8", "{ 1 + 2 }", "3u8"), ("u8", "_", "<u8 as Default>::default()"), ("Option<u8>", "Some(4)", "Some(4)"),
-    ("u8", "<K as HasC>::V", "<K as HasC>::V"), ("S8", "<K as HasC>::W", "S8::from(<K as HasC>::W)"), ("S8", "<K as HasC>::S", "S8::from(<K as HasC>::S)"), ("S8", "<K>::W", "S8::from(K::W)"),
-    ("S8", "crate::support::C_CC", "S8::from(C_CC)"), ("S8", "self::super::support::K::W", "S8::from(K::W)"),
-    ("u8", "7, bound()", "7u8"), ("S8", '"xy", bound()', 'S8::from("xy")'), ("u8", "_, bound()", "0u8"), ("u8", "C_U8 + 1", "42u8"), ("i16", "(-3)", "-3i16"),
+    ("u8", "<K as HasC>::V", "<K as HasC>::V"), ("S8", "<K as HasC>::W", "<S8 as From<_>>::from(<K as HasC>::W)"), ("S8", "<K as HasC>::S", "<S8 as From<_>>::from(<K as HasC>::S)"), ("S8", "<K>::W", "<S8 as From<_>>::from(K::W)"),
+    ("S8", "crate::support::C_CC", "<S8 as From<_>>::from(C_CC)"), ("S8", "self::super::support::K::W", "<S8 as From<_>>::from(K::W)"),
+    ("u8", "7, bound()", "7u8"), ("S8", '"xy", bound()', '<S8 as From<_>>::from("xy")'), ("u8", "_, bound()", "0u8"), ("u8", "C_U8 + 1", "42u8"), ("i16", "(-3)", "-3i16"),
 ]
 
 
